@@ -27,7 +27,7 @@ package host
 //@   ensures @prefers-main result == ite(len(set.healthyMain) == 0, set.healthyBackup, set.healthyMain)
 
 //@ func (*Set).addToHealthy
-//@   prop C15
+//@   prop C15 C06
 //@   requires set != nil && set.healthyMain != nil && set.healthyBackup != nil
 //@   requires @tier-values-non-nil (forall a string :: has(set.healthyMain, a) ==> set.healthyMain[a] != nil) && (forall a string :: has(set.healthyBackup, a) ==> set.healthyBackup[a] != nil)
 //@   requires @three-distinct-maps set.all != set.healthyMain && set.all != set.healthyBackup && set.healthyMain != set.healthyBackup
@@ -153,52 +153,57 @@ package host
 // ---- C15: every operation leaves the cached list describing the current preferred tier -----------------
 
 //@ func (*Set).add
-//@   prop C15
+//@   prop C15 C06
 //@   requires setok(set) && forall k int :: 0 <= k && k < len(hosts) ==> hosts[k] != nil
 //@   requires @one-host-per-address-in-a-call forall a int, b int :: 0 <= a && a < b && b < len(hosts) ==> hosts[a].Addr != hosts[b].Addr
 //@   modifies mapof(set.all), mapof(set.healthyMain), mapof(set.healthyBackup), aval
+//@   ensures @the-given-hosts-are-the-members-under-their-addresses forall k int :: 0 <= k && k < len(hosts) ==> has(set.all, hosts[k].Addr) && set.all[hosts[k].Addr] == hosts[k]
 //@   ensures @well-formed setok(set)
 //@   ensures @usable-hosts-are-current-members old(tiersinall(set)) ==> tiersinall(set)
 //@   ensures @cache-describes-the-current-tier (old(cachefresh(set)) || len(hosts) > 0) ==> cachefresh(set)
 //@   loop 0 invariant setok(set) && set.all == old(set.all) && set.healthyMain == old(set.healthyMain) && set.healthyBackup == old(set.healthyBackup) && (forall k int :: 0 <= k && k < len(hosts) ==> hosts[k] != nil) && (old(tiersinall(set)) ==> tiersinall(set)) && (forall k int :: 0 <= k && k <= rangeindex ==> has(set.all, hosts[k].Addr) && set.all[hosts[k].Addr] == hosts[k])
 
 //@ func (*Set).ReplaceAll
-//@   prop C15
+//@   prop C15 C06
 //@   requires setok(set) && cachefresh(set) && forall k int :: 0 <= k && k < len(hosts) ==> hosts[k] != nil
 //@   requires @one-host-per-address-in-a-call forall a int, b int :: 0 <= a && a < b && b < len(hosts) ==> hosts[a].Addr != hosts[b].Addr
 //@   modifies mapof(set.all), mapof(set.healthyMain), mapof(set.healthyBackup), aval, heap("#closed")
+//@   ensures @the-given-hosts-are-the-members-under-their-addresses forall k int :: 0 <= k && k < len(hosts) ==> has(set.all, hosts[k].Addr) && set.all[hosts[k].Addr] == hosts[k]
 //@   ensures @usable-hosts-are-current-members old(tiersinall(set)) ==> tiersinall(set)
 //@   ensures @cache-describes-the-current-tier cachefresh(set)
 //@   loop 0 invariant (old(tiersinall(set)) ==> tiersinall(set)) && setok(set) && cachefresh(set) && set.all == old(set.all) && set.healthyMain == old(set.healthyMain) && set.healthyBackup == old(set.healthyBackup) && (forall k int :: 0 <= k && k < len(hosts) ==> hosts[k] != nil)
 
 //@ func (*Set).Add
-//@   prop C15
+//@   prop C15 C06
 //@   requires setok(set) && cachefresh(set) && forall k int :: 0 <= k && k < len(hosts) ==> hosts[k] != nil
 //@   requires @one-host-per-address-in-a-call forall a int, b int :: 0 <= a && a < b && b < len(hosts) ==> hosts[a].Addr != hosts[b].Addr
 //@   modifies mapof(set.all), mapof(set.healthyMain), mapof(set.healthyBackup), aval
+//@   ensures @the-given-hosts-are-the-members-under-their-addresses forall k int :: 0 <= k && k < len(hosts) ==> has(set.all, hosts[k].Addr) && set.all[hosts[k].Addr] == hosts[k]
 //@   ensures @usable-hosts-are-current-members old(tiersinall(set)) ==> tiersinall(set)
 //@   ensures @cache-describes-the-current-tier cachefresh(set) && setok(set)
 
 //@ func (*Set).Remove
-//@   prop C15
+//@   prop C15 C06
 //@   requires setok(set) && cachefresh(set) && forall k int :: 0 <= k && k < len(hosts) ==> hosts[k] != nil
 //@   modifies mapof(set.all), mapof(set.healthyMain), mapof(set.healthyBackup), aval, heap("#closed")
 //@   ensures @usable-hosts-are-current-members old(tiersinall(set)) ==> tiersinall(set)
 //@   ensures @cache-describes-the-current-tier cachefresh(set)
 
 //@ func (*Set).MarkHostHealthy
-//@   prop C15
+//@   prop C15 C06
 //@   requires setok(set) && cachefresh(set) && host != nil && host.Stats != nil
 //@   modifies mapof(set.healthyMain), mapof(set.healthyBackup), aval, atomu64, atombool
 //@   ensures @usable-hosts-are-current-members old(tiersinall(set)) ==> tiersinall(set)
 //@   ensures @cache-describes-the-current-tier cachefresh(set)
+//@   ensures @both-runs-restart atomu64[host.Stats.successfulCount] == 0 && atomu64[host.Stats.failedCount] == 0
 
 //@ func (*Set).MarkHostUnhealthy
-//@   prop C15
+//@   prop C15 C06
 //@   requires setok(set) && cachefresh(set) && host != nil && host.Stats != nil
 //@   modifies mapof(set.healthyMain), mapof(set.healthyBackup), aval, atomu64, atombool
 //@   ensures @usable-hosts-are-current-members old(tiersinall(set)) ==> tiersinall(set)
 //@   ensures @cache-describes-the-current-tier cachefresh(set)
+//@   ensures @both-runs-restart atomu64[host.Stats.successfulCount] == 0 && atomu64[host.Stats.failedCount] == 0
 
 //@ func NewSet
 //@   prop C15
